@@ -108,7 +108,11 @@ Proof.
     destruct (val_total d1 C1) as (v & Ev). rewrite Ev. cbn [rbind].
     destruct (leqb v RBRACE).
     + destruct (next_on_same_line_total d1 C1) as (same & d2 & E2 & (C2 & T2 & L2 & P2) & _).
-      rewrite E2. cbn [rbind]. destruct same; cbn [negb]; fin2.
+      rewrite E2. cbn [rbind]. destruct same; cbn [negb]; [|fin2].
+      destruct (val_total d2 C2) as (v' & Ev'). rewrite Ev'. cbn [rbind].
+      destruct (leqb v' LBRACE); [|fin2].
+      destruct (next_on_same_line_total d2 C2) as (same3 & d3 & E3 & (C3 & T3 & L3 & P3) & _).
+      rewrite E3. cbn [rbind]. destruct same3; cbn [negb]; fin2.
     + destruct (leqb v LBRACE); [|fin2].
       destruct (next_on_same_line_total d1 C1) as (same & d2 & E2 & (C2 & T2 & L2 & P2) & _).
       rewrite E2. cbn [rbind]. destruct same; cbn [negb]; fin2.
